@@ -154,7 +154,9 @@ def run_chunk(job):
     else:
         with open(tracefile, 'w') as fh:
             r = subprocess.run([f'{BIN}/drive', 'replay', '-in', argv[0]], stdout=fh, stderr=subprocess.PIPE, text=True, env=GOENV)
-    if r.returncode != 0:
+    if r.returncode == 3:
+        pass    # an event did not return (`O stuck` is the last outcome of the trace): the driver reports it
+    elif r.returncode != 0:
         return tracefile, None, 'harness failed: ' + r.stderr[-2000:]
     with open(tracefile) as fh:
         d = subprocess.run([DRIVER], stdin=fh, capture_output=True, text=True)
